@@ -11,6 +11,7 @@ import (
 	"context"
 	"errors"
 	"fmt"
+	"os"
 	"strings"
 	"testing"
 	"time"
@@ -255,6 +256,10 @@ func c20SackOutcomes(r *hx.RNG, thorough bool) []c20Outcome {
 }
 
 func TestC20(t *testing.T) {
+	if first := os.Getenv("C20_CHILD"); first != "" {
+		c20FreshChild(t, first)
+		return
+	}
 	env := hx.GetEnv()
 	rep := hx.NewReport("C20", env, "real performTCPFallback with instrumented closures (method × SACK outcome × SYN outcome), real runE2eProbeOnce with a capturing per-run function, "+
 		"real RunSackTraceroute over the simulated wire; non-trivial = a SACK-capable method with a failing SACK attempt, or an e2e probe with a SACK method, or a real SACK run; distinct by matrix cell")
@@ -268,6 +273,7 @@ func TestC20(t *testing.T) {
 	sackOuts := c20SackOutcomes(rng, env.Thorough())
 
 	c20RealSack(t, rep, orc, rng)
+	c20FreshProcess(t, rep)
 	c20E2e(t, rep, orc)
 	c20E2eReal(t, rep)
 
